@@ -43,7 +43,9 @@ def summarize(pid, tier, seed, obligations, assumptions, t0, extra=None, level="
     samples = []
     for o in obligations[:60]:
         s = {k: o[k] for k in ("id", "engine", "statement", "bound", "status", "wall_s", "unwind", "stubs", "encoding",
-                               "solver", "covers_satisfied", "reason", "replay", "witness", "goal") if k in o}
+                               "solver", "covers_satisfied", "reason", "replay", "witness", "goal", "paths", "queries", "compositions",
+                               "distinct_token_classes", "truncated_recursion", "helpers", "shapes", "plan_samples", "samples_tokens",
+                               "samples_mismatch") if k in o}
         samples.append(s)
     nontrivial = len([o for o in held + known if o.get("covers_satisfied", 1) or o.get("vacuity_ok")])
     coverage = {
